@@ -10,7 +10,7 @@ import itertools
 import numpy as np
 
 from checks import specgen as SG
-from checks.common import hash_tag
+from checks.common import hash_tag, relayout
 from qmc import gen as G
 from qmc import oracle as O
 from qmc.loader import load
@@ -51,6 +51,9 @@ def cases(tier, seed):
                         out.append({"key": f"full/{base}/graded", "entry": "classical_qsvd_full", "m": m, "n": n, "vals": gv, "kU": kU, "kV": kV, "row": row, "R": None})
                         for R in range(1, p + 1):
                             out.append({"key": f"trunc/{base}/graded/R={R}", "entry": "classical_qsvd", "m": m, "n": n, "vals": gv, "kU": kU, "kV": kV, "row": row, "R": R})
+                    if kU == "hh" and row == 0 and r == p and comp == (1,) * p:
+                        for lay in ("F", "T", "view"):
+                            out.append({"key": f"full/{base}/layout={lay}", "entry": "classical_qsvd_full", "m": m, "n": n, "vals": vals, "kU": kU, "kV": kV, "row": row, "R": None, "lay": lay})
                     if kU == "hh" and row == 0 and r >= 1:
                         for e in (-50, 40):  # whole-matrix scalings ~1e-15, 1e12
                             out.append({"key": f"full/{base}/scale=2^{e}", "entry": "classical_qsvd_full", "m": m, "n": n, "vals": vals, "kU": kU, "kV": kV, "row": row, "R": None, "scale": e})
@@ -72,7 +75,7 @@ def run_case(case, seed):
     info = SG.cluster_info(vals, m, n)
     degenerate = SG.degenerate_within(vals, m, n, R)
     tags = {"entry": case["entry"], "degenerate": degenerate, "factors": case["kU"], **info}
-    Aq = G.to_quat(A)
+    Aq = relayout(G.to_quat(A), case.get("lay", "C"))
     before = Aq.tobytes()
     if R is None:
         ok, res = call(lib.qsvd.classical_qsvd_full, Aq)
